@@ -4617,15 +4617,19 @@ func (n *FlowSpecNLRI) decodeFromBytes(data []byte, options ...*MarshallingOptio
 	if len(data) < 1 {
 		return malformedAttrListErr("not all flowspec component bytes available")
 	}
+	// the length is one octet, or two when the first nibble is 0xf
+	// (RFC 8955 Section 4.1); what follows the length octets must not
+	// decide how they are read.
 	var length int
-	if data[0]>>4 == 0xf && len(data) > 2 {
+	if data[0]>>4 == 0xf {
+		if len(data) < 2 {
+			return malformedAttrListErr("not all flowspec component bytes available")
+		}
 		length = int(binary.BigEndian.Uint16(data[:2]) & 0x0fff)
 		data = data[2:]
-	} else if len(data) > 1 {
+	} else {
 		length = int(data[0])
 		data = data[1:]
-	} else {
-		return malformedAttrListErr("not all flowspec component bytes available")
 	}
 	if len(data) < length {
 		return malformedAttrListErr("not all flowspec component bytes available")
